@@ -153,7 +153,7 @@ def build_libs(san=True, extra=()):
     return sa, ca
 
 
-def _gc(keep=4):
+def _gc(keep=16):
     """keep the cache small: only the most recent library sets / objects of the last sets."""
     libroot = os.path.join(CACHE, "lib")
     ds = sorted(glob.glob(os.path.join(libroot, "*")), key=os.path.getmtime, reverse=True)
